@@ -1,6 +1,7 @@
 package props
 
 import (
+	"regexp"
 	"encoding/json"
 	"fmt"
 	"strings"
@@ -279,7 +280,7 @@ func mutants(base *ref.Program, limit int) []mutant {
 				insertAt(b, len(*b), ref.Cmd{K: "let", Var: "zzPos", Expr: &ref.Expr{Op: "int", I: 1}}, ref.Cmd{K: "print", Expr: call1("isNonnull", call1(fn, &ref.Expr{Op: "ref", Name: "zzPos"}))})
 				return true
 			})
-			add("valid: "+fn+"() of a loop variable, also where a let of that name hides the variable", func(p *ref.Program) bool {
+			add(fn+"() of a loop variable where a let of that name hides it (and valid uses beside it)", func(p *ref.Program) bool {
 				_, b, _ := nthBlock(p, bi)
 				lv := &ref.Expr{Op: "ref", Name: "zzLoop"}
 				insertAt(b, len(*b), ref.Cmd{K: "for", Style: 1, Var: "zzLoop", Expr: &ref.Expr{Op: "list", Args: []*ref.Expr{{Op: "int", I: 1}, {Op: "int", I: 2}}}, Body: []ref.Cmd{
@@ -405,9 +406,48 @@ func checkC07(c gen.ProgCase) Verdict {
 		}
 		return nil
 	}
+	// mutants of the source text: places where an undeclared name can hide from the checker
+	textMutants := func() error {
+		names, srcs := gen.Sources(&c.Prog)
+		type tm struct {
+			what string
+			re   *regexp.Regexp
+			repl string
+		}
+		for _, m := range []tm{
+			{"a second expression behind the data expression of a call", regexp.MustCompile(` data="([^"]*[^"l])"`), ` data="$1 $$zzNope"`},
+			{"a second expression behind the value of a param", regexp.MustCompile(` value="([^"]+)"`), ` value="$1 $$zzNope"`},
+			{"the data attribute given twice (the first with an undeclared name)", regexp.MustCompile(` data="([^"]*[^"l])"`), ` data="$$zzNope" data="$1"`},
+			{"a map literal with one key twice (the first value an undeclared name)", regexp.MustCompile(`\['(\w+)': `), `['$1': $$zzNope, '$1': `},
+		} {
+			for i := range srcs {
+				loc := m.re.FindStringIndex(srcs[i])
+				if loc == nil {
+					continue
+				}
+				mutated := append([]string{}, srcs...)
+				mutated[i] = srcs[i][:loc[0]] + m.re.ReplaceAllString(srcs[i][loc[0]:loc[1]], m.repl) + srcs[i][loc[1]:]
+				_, cerr, pn := compileBundle(names, mutated, c.Prog.Globals)
+				if pn != nil {
+					return fmt.Errorf("text mutant [%s]: compiler panicked: %v\n%s", m.what, pn, showSources(names, mutated))
+				}
+				if cerr == nil {
+					return fmt.Errorf("text mutant [%s]: the bundle refers to $zzNope, which nothing declares, but the compiler accepts it\n%s", m.what, showSources(names, mutated))
+				}
+				if c07rec != nil {
+					c07rec.add("text_mutants_rejected", 1)
+				}
+				break
+			}
+		}
+		return nil
+	}
 	var err error
 	if !finishes(4*watchdogLimit(), func() {
 		if err = judge("generated valid bundle", &c.Prog, true); err != nil {
+			return
+		}
+		if err = textMutants(); err != nil {
 			return
 		}
 		for _, m := range mutants(&c.Prog, scale(150, 600)) {
